@@ -62,16 +62,16 @@ def rvalue(rng, p):
     raise KeyError(n)
 
 
-def rtime(rng, maxv=12, none_p=0.35):
+def rtime(rng, maxv=12, none_p=0.35, minv=0):
     if rng.random() < none_p: return None
-    if rng.random() < 0.04: return F(rng.randint(0, 10 ** 6), rng.choice([997, 1001, 30000]))
+    if rng.random() < 0.03: return F(rng.randint(0, 10 ** 4), rng.choice([997, 1001, 30000]))
     d = rng.choice([1, 1, 1, 2, 3])
-    return F(rng.randint(0, maxv * d), d)
+    return F(rng.randint(minv * d, maxv * d), d)
 
 
 class Gen:
     def __init__(self, rng, style_density=0.0, anim_density=0.04, display_p=0.08, ruby_p=0.15, region_ref_p=0.3,
-                 timing_p=0.5, own_begin_p=None, exclude_props=()):
+                 timing_p=0.4, own_begin_p=None, exclude_props=()):
         self.rng = rng; self.sd = style_density; self.ad = anim_density; self.dp = display_p
         self.ruby_p = ruby_p; self.rrp = region_ref_p; self.tp = timing_p; self.n = 0
         self.exclude = set(exclude_props)
@@ -96,16 +96,18 @@ class Gen:
 
     def timing(self, e):
         rng = self.rng
-        if rng.random() < self.tp: e.set_begin(rtime(rng, 6))
-        if rng.random() < self.tp: e.set_end(rtime(rng, 12))
+        if rng.random() < self.tp: e.set_begin(rtime(rng, 3))
+        if rng.random() < self.tp: e.set_end(rtime(rng, 14, minv=(0 if rng.random() < 0.2 else 3)))
 
-    def region(self, e):
-        if self.regs and self.rng.random() < self.rrp: e.set_region(self.rng.choice(self.regs))
+    def region(self, e, prefix="s"):
+        # region references mostly on div/p (as real documents do), occasionally anywhere (conflicts)
+        w = {"b": 0.4, "d": 1.6, "p": 1.2}.get(prefix, 0.15)
+        if self.regs and self.rng.random() < self.rrp * w: e.set_region(self.rng.choice(self.regs))
 
     def common(self, e, prefix, timed=True):
         e.set_id(self.uid(prefix))
         if timed: self.timing(e)
-        self.region(e); self.deco(e)
+        self.region(e, prefix); self.deco(e)
         if self.rng.random() < 0.25: e.set_space(m.WhiteSpaceHandling.PRESERVE)
         if self.rng.random() < 0.1: e.set_lang(self.rng.choice(["fr", "en-US", ""]))
 
